@@ -22,6 +22,7 @@ func init() {
 			"R13.5 under a non-empty stop reason the writer is not handed over and the completion writes a non-200 status and records an error; " +
 			"R13.6 every WriteHeader argument in the proxy is a constant other than 200; R13.7 a failure recorded before any byte was forwarded is answered with a failure status by the completion; " +
 			"R13.8 a failed read of the body is a failed scrape although the pinned stream parser takes some read errors (text containing 'reset by peer') for the end of the stream: the tee's Read stores every error of the underlying read other than io.EOF into a field of the tee that nothing else writes, and ParseResponse returns nil only if that field is nil after parsing; R13.9 every successful return of RequestTo implies StatusCode == 200 (helper predicates are looked through). " +
+			"R13.1 also: nothing in pkg/sidecar recovers panics around a handler call (the abort must reach net/http); R13.3 also: the outcome is recorded by SetScrapeErr for every attempt, conditional only on the status entry existing. " +
 			"Not decided: what an HTTP client observes (taken from the documented net/http contract).",
 		Assumptions: []string{"go/types and go/ssa are correct", "net/http: WriteHeader after the first Write is ignored; panic(http.ErrAbortHandler) aborts the response", "fmt.Errorf never returns nil", "github.com/VictoriaMetrics/VictoriaMetrics v1.71.0 lib/protoparser/common.isEOFLikeError ends the stream silently on read errors whose text contains 'reset by peer' (read; demonstrated by seeded/D12)"}})
 }
@@ -236,6 +237,43 @@ func runC13(p *engine.Prog, r *engine.Report) {
 				}
 			}
 		}
+		// nor may a wrapper around the handler: whatever serves the proxy must let the abort reach net/http
+		for _, f := range p.Funcs {
+			if !engine.InPkg(f, pkgSide) {
+				continue
+			}
+			rec := false
+			for _, in := range allInstrs(f) {
+				if call, ok := in.(*ssa.Call); ok {
+					if bi, ok := call.Call.Value.(*ssa.Builtin); ok && bi.Name() == "recover" {
+						rec = true
+					}
+				}
+			}
+			if !rec {
+				continue
+			}
+			for g := f; g != nil; g = g.Parent() {
+				if g == fn {
+					break // the handler's own completion: reported above
+				}
+				wraps := false
+				for _, in := range allInstrs(g) {
+					if ci, ok := in.(ssa.CallInstruction); ok {
+						if m := ci.Common().Method; m != nil && m.Name() == "ServeHTTP" {
+							wraps = true
+						}
+						if callee := ci.Common().StaticCallee(); callee != nil && callee.Name() == "ServeHTTP" {
+							wraps = true
+						}
+					}
+				}
+				if wraps {
+					probs = append(probs, "panics are recovered around a handler call in "+engine.FuncName(g)+" ("+p.Rel(f.Pos())+"): the abort of a scrape that failed after body bytes were sent would be swallowed and the truncated response completed")
+					break
+				}
+			}
+		}
 		r.Check(len(probs) == 0, "R13.1-late-failure-aborts", "ParseResponse error edge in "+engine.FuncName(fn), "error edge of ParseResponse at "+p.Rel(pr.parse.Pos()),
 			"every exit passes panic(http.ErrAbortHandler) unless the writer was not handed over (same condition value)", strings.Join(probs, "; "))
 	}
@@ -335,6 +373,44 @@ func runC13(p *engine.Prog, r *engine.Report) {
 
 	// ---- R13.3
 	checkSetScrapeErr(p, r, "R13.3-truthful-health", pkgSide)
+	if pr != nil && pr.completion != nil && pr.deferIn != nil {
+		// the health is recorded for every attempt on an assigned target: the call is conditional only on the entry
+		cfi := p.Info(pr.completion)
+		fi := p.Info(fn)
+		for _, ci := range callsIn(pr.completion, mSet) {
+			call, ok := ci.(*ssa.Call)
+			if !ok {
+				continue
+			}
+			var probs []string
+			et := cfi.T(recvOf(call)).S
+			for _, g := range cfi.Guards(call.Block()) {
+				if engine.IsStructuralLiteral(g) || g == "¬eq("+min2(et, "nil")+","+max2(et, "nil")+")" {
+					continue
+				}
+				inherited := false
+				for _, hg := range fi.Guards(pr.deferIn.Block()) {
+					if hg == g {
+						inherited = true
+					}
+				}
+				if !inherited {
+					probs = append(probs, "the health is only recorded when "+g)
+				}
+			}
+			nn := engine.Not(engine.EqAtom(et, "nil"))
+			v := cfi.ViewOpt(nn, nil, call.Block())
+			for _, ret := range returnsOf(pr.completion) {
+				if !v.Reachable(ret.Block()) {
+					continue
+				}
+				if ok, _ := v.Implies(ret.Block(), engine.Not(nn)); !ok {
+					probs = append(probs, "the completion can finish without recording the outcome although the target is assigned (it keeps the health of an earlier scrape)")
+				}
+			}
+			r.Check(len(probs) == 0, "R13.3-truthful-health", "outcome recorded in "+engine.FuncName(pr.completion), "SetScrapeErr at "+p.Rel(call.Pos()), "called for every attempt, conditional only on the status entry existing", strings.Join(probs, "; "))
+		}
+	}
 	if sf := p.SSAFunc(mSet); sf != nil {
 		sfi := p.Info(sf)
 		errP := sf.Params[len(sf.Params)-1]
